@@ -323,7 +323,7 @@ def build_frame_array(case):
     return fa
 
 
-def check(case, cc):
+def check(case, cc, fa=None, subset_obj=None):
     logging.disable(logging.CRITICAL)
     import numpy as np
     from TotalDepth.LAS.core import WriteLAS, LASRead
@@ -331,13 +331,18 @@ def check(case, cc):
     chans = case['channels']
     nfr = len(chans[0]['values'])
     reduction, width, fmt = case['reduction'], case['width'], case['fmt']
-    fa = build_frame_array(case)
+    if fa is None:
+        fa = build_frame_array(case)
     out = io.StringIO()
+    subset_arg = set(case['subset']) if subset_obj is None else subset_obj
     try:
-        WriteLAS.write_curve_and_array_section_to_las(fa, nfr, reduction, Slice.Slice(), set(case['subset']), width, fmt, out)
+        WriteLAS.write_curve_and_array_section_to_las(fa, nfr, reduction, Slice.Slice(), subset_arg, width, fmt, out)
     except Exception as err:  # noqa
         cc.unexpected(err, 'write-total')
         return
+    if subset_arg != set(case['subset']):
+        cc.dev('caller-arguments-unchanged', 'subset-mutated', 'the channel subset passed in was %r, is %r after the call' % (
+            sorted(case['subset']), sorted(subset_arg)))
     text = out.getvalue()
     want = expected_channels(case)
     want_names = [chans[i]['name'] for i in want]
@@ -457,8 +462,50 @@ def check(case, cc):
                 dev('readback-value-exact', 'value-wrong', 'frame %d channel %d: token %r read as %r' % (f, k, rows[f][k], got))
 
 
+@st.composite
+def histories(draw):
+    """One frame array written several times with different options (what a conversion with several outputs, or a
+    caller that writes a selection and then everything, does)."""
+    base = draw(cases(max_channels=5, max_frames=6))
+    all_names = [c['name'] for c in base['channels']]
+    writes = []
+    for _ in range(draw(st.integers(2, 3))):
+        # the index values of the base case are spaced for the print resolution of its format: keep the format or print more decimals
+        fmt = base['fmt']
+        if fmt.endswith('f'):
+            fmt = '.%df' % draw(st.integers(int(fmt[1:-1]), 9))
+        subset = [nm for nm in all_names if draw(st.booleans())] if draw(st.integers(0, 3)) else []
+        if draw(st.integers(0, 5)) == 0:
+            subset.append('nosuch')
+        writes.append({'reduction': draw(st.sampled_from(REDUCTIONS)), 'width': draw(st.integers(6, 20)), 'fmt': fmt, 'subset': subset})
+    return {'base': base, 'writes': writes, 'share_subset': draw(st.booleans())}
+
+
+def check_history(case, cc):
+    base, writes = case['base'], case['writes']
+    fa = build_frame_array(base)
+    import numpy as np
+    before = [np.array(ch.array, copy=True) for ch in fa.channels]
+    cc.nt(len(base['channels']) >= 2)
+    cc.cls('history:writes>=3', len(writes) >= 3)
+    cc.cls('history:subset-then-all', any(a['subset'] and not b['subset'] for a, b in zip(writes, writes[1:])))
+    cc.cls('history:multi-valued-reduced-twice', any(len(c['values'][0]) > 1 for c in base['channels']) and len({w['reduction'] for w in writes}) > 1)
+    shared = None
+    for i, w in enumerate(writes):
+        if case['share_subset'] and i and writes[i - 1]['subset'] == w['subset']:
+            pass   # the caller passes the very same set object again
+        else:
+            shared = set(w['subset'])
+        check(dict(base, **w), cc, fa=fa, subset_obj=shared if case['share_subset'] else None)
+        for ch, b in zip(fa.channels, before):
+            if ch.array.shape != b.shape or not np.array_equal(ch.array, b):
+                cc.dev('caller-arguments-unchanged', 'frame-array-mutated', 'write %d of %r changed the array of channel %s' % (i, writes, ch.ident))
+                return
+
+
 def parts(tier):
     return [
+        HypPart('write-history', histories(), check_history, 800, 16000),
         HypPart('write-read', cases(), check, 2400, 64000),
         HypPart('write-read-small', cases(max_channels=3, max_frames=3), check, 1200, 32000),
     ]
